@@ -1506,3 +1506,40 @@ def m_from_iter(I, a, e, ci):
     if it.vec is None:
         raise Unanalysable("from_iter of an unbounded iterator")
     return Vec(it.vec.segs)
+
+
+@model("core::slice::<impl [T]>::to_vec", "std::slice::<impl [T]>::to_vec", "std::borrow::ToOwned::to_owned")
+def m_to_vec(I, a, e, ci):
+    v = I.deref(a[0])
+    if isinstance(v, IterV):
+        v = v.vec
+    return I.copy_val(v)
+
+
+@model("core::slice::<impl [T]>::last", "core::slice::<impl [T]>::first")
+def m_last_first(I, a, e, ci):
+    v = I.deref(a[0])
+    if not isinstance(v, Vec):
+        raise Unanalysable(f"first/last of {v!r}")
+    last = (ci.get("path") or "").endswith("last")
+    ln = v.length()
+    nonempty = I.decide(Cond("lt", sp.Integer(0), sp.expand(ln)))
+    none = Enum("Option", "None", [])
+    if nonempty is False:
+        return none
+    el = v.index(sp.expand(ln - 1) if last else sp.Integer(0), I.bounds)
+    some = Enum("Option", "Some", [el])
+    return some if nonempty is True else Ite(nonempty, some, none)
+
+
+@model("core::slice::<impl [T]>::last_mut", "core::slice::<impl [T]>::first_mut", places=(0,))
+def m_last_first_mut(I, a, e, ci):
+    v = I.deref(a[0].get())
+    if not isinstance(v, Vec):
+        raise Unanalysable(f"first_mut/last_mut of {v!r}")
+    last = (ci.get("path") or "").endswith("last_mut")
+    ln = v.length()
+    nonempty = I.decide(Cond("lt", sp.Integer(0), sp.expand(ln)))
+    if nonempty is not True:
+        raise Unanalysable("first_mut/last_mut of a vector not known to be non-empty", FX.short(e.get("sp")))
+    return Enum("Option", "Some", [I.elem_ref(a[0], sp.expand(ln - 1) if last else sp.Integer(0))])
